@@ -19,6 +19,7 @@ INVARIANT InvRegistryExact
 INVARIANT InvNoSpuriousRefusal
 INVARIANT InvOwnership
 INVARIANT InvRect
+INVARIANT InvSharingJustified
 INVARIANT InvFpCoherent
 INVARIANT InvDtypeTruthful
 INVARIANT InvSane
